@@ -142,11 +142,11 @@ _add("Falcun", "Falcun", {}, ["pwc", "gnb"])
 for m in ("random", "diversity", "representativity"):
     _add(f"RegressionTreeBasedAL:{m}", "RegressionTreeBasedAL", {"method": m}, ["tree"], task="reg")
 
-# the two pool wrappers: subjects of the frame monitor (C05) and of the twin worlds (C06) only -- not of C14
-# (SubSamplingWrapper returns at most its sub-sample size by design, the parallel wrapper needs batch_size=1)
-_add("SubSamplingWrapper:US", "SubSamplingWrapper", {"max_candidates": 0.5}, ["pwc", "gnb"], wrap="UncertaintySampling:entropy", no14=True, rows=False)
-_add("SubSamplingWrapper:excl", "SubSamplingWrapper", {"max_candidates": 3, "exclude_non_subsample": True}, ["pwc"], wrap="ProbabilisticAL", no14=True, rows=False)
-_add("ParallelWrapper:US", "ParallelUtilityEstimationWrapper", {"n_jobs": 1}, ["pwc"], wrap="UncertaintySampling:margin_sampling", no14=True, batch1=True, rows=False)
+# the two pool wrappers: in the C14 loop with batch_size=1 only (SubSamplingWrapper returns at most its sub-sample
+# size by design, the parallel wrapper documents batch_size=1); C05 / C06 use them with any batch size
+_add("SubSamplingWrapper:US", "SubSamplingWrapper", {"max_candidates": 0.5}, ["pwc", "gnb"], wrap="UncertaintySampling:entropy", batch1_14=True, rows=False)
+_add("SubSamplingWrapper:excl", "SubSamplingWrapper", {"max_candidates": 3, "exclude_non_subsample": True}, ["pwc"], wrap="ProbabilisticAL", batch1_14=True, rows=False)
+_add("ParallelWrapper:US", "ParallelUtilityEstimationWrapper", {"n_jobs": 1}, ["pwc"], wrap="UncertaintySampling:margin_sampling", batch1_14=True, batch1=True, rows=False)
 
 # ---- variants that move the constructor parameters the entries above leave at their defaults
 # ({"cm": kind} / {"fn": name} / {"cluster": name} are placeholders resolved by build_strategy)
@@ -176,7 +176,7 @@ _add("RegressionTreeBasedAL:rep1", "RegressionTreeBasedAL", {"method": "represen
 # random_state on every query, in a copy
 for _c in ("Clue", "DropQuery", "TypiClust", "ProbCover"):
     _add(f"{_c}:ninit", _c, {"cluster_algo_dict": {"n_init": 1}}, ["pwc"] if _c in ("Clue", "DropQuery") else (None,))
-_add("SubSamplingWrapper:int", "SubSamplingWrapper", {"max_candidates": 2}, ["pwc"], wrap="UncertaintySampling:lc_cost", no14=True, rows=False)
+_add("SubSamplingWrapper:int", "SubSamplingWrapper", {"max_candidates": 2}, ["pwc"], wrap="UncertaintySampling:lc_cost", batch1_14=True, rows=False)
 
 # strategies that need a mapping from candidates to X (feature-row candidates are refused: MappingError)
 for _k, _e in _E.items():
